@@ -21,6 +21,15 @@ theorem Frame.refl (st : St) : Frame st st := ⟨StackFrame.refl _, fun _ h => h
 theorem Frame.trans {a b c : St} (h1 : Frame a b) (h2 : Frame b c) : Frame a c :=
   ⟨h1.1.trans h2.1, fun x hx => h2.2 x (h1.2 x hx)⟩
 
+theorem onceGate_frame {st st' : St} {a : List Attr} (h : onceGate st a = some st') : Frame st st' := by
+  unfold onceGate at h
+  split at h
+  · split at h
+    · cases h
+    · simp only [Option.some.injEq] at h; subst h
+      exact ⟨StackFrame.refl _, fun x hx => by simp [hx]⟩
+  · simp only [Option.some.injEq] at h; subst h; exact Frame.refl st
+
 theorem StackFrame.nonempty {s s' : Stack} (h : StackFrame s s') (hs : s.scopes ≠ []) : s'.scopes ≠ [] := by
   intro he
   have := h.1
